@@ -216,7 +216,10 @@ def gen_config(rng, with_decimal=False, decimal_widths=(3, 6, 8, 12, 15)):
             # the merchant-name processor: with the packaged pattern, with no pattern, with an empty one
             pat = pkg_config()['43']['field_processor_config']
             fc.update(field_type='LLVAR', field_length=0, field_processor='DE43')
-            which = rng.randrange(4)
+            which = rng.randrange(5)
+            if which == 4:
+                # a caller's pattern with an OPTIONAL group (unmatched groups are None in groupdict())
+                fc['field_processor_config'] = r'(?P<DE43_NAME>[^\\]+)\\(?P<DE43_ADDRESS>[^\\]*)(?:\\X(?P<DE43_POSTCODE>\d{4}))?'
             if which == 0:
                 fc['field_processor_config'] = pat
             elif which == 1:
@@ -389,7 +392,8 @@ def gen_value(rng, fc, codec, length=None):
         name = text(rng, 'ascii', rng.randrange(1, 23), 'digits') + 'A'
         if rng.random() < 0.15:
             name = name[:1] + '\n' + name[1:]        # a line feed in the name: the pattern's '.' does not cross it
-        t = (name + '\\' + 'STREET 1' + '\\' + 'TOWN' + '\\' + '2000'.ljust(10) + 'NSW' + 'AUS')
+        pad = (lambda s: s + ' ' * rng.choice([0, 0, 1, 6])) if rng.random() < 0.4 else (lambda s: s)
+        t = (pad(name) + '\\' + pad('STREET 1') + '\\' + pad('TOWN') + '\\' + '2000'.ljust(10) + 'NSW' + 'AUS')
         if len(t) <= maxvar:
             return t, t
     t = text(rng, codec, n)
